@@ -746,8 +746,11 @@ func stlGenWriterModel(r *fw.Rand) (stlModel, *astisub.Subtitles, string) {
 		s.Metadata = md
 	case 2:
 		// what a TTML / WebVTT / SSA parse leaves behind
-		s.Metadata = &astisub.Metadata{Title: "Inherited", Framerate: fw.Pick(r, []int{0, 24, 60}), Language: fw.Pick(r, []string{"", "english"})}
-		g.OPT = "Inherited"
+		// (titles of any length and script: the GSI field holds 32 bytes, the block stays 1024 bytes whatever comes in)
+		s.Metadata = &astisub.Metadata{Title: fw.Pick(r, []string{"Inherited", "Inherited", "A title that is a good deal longer than thirty-two bytes", "Les Misérables — l'intégrale restaurée, épisode n° 12 «été»", "日本語のタイトルはとても長いです、三十二バイトを超えます", strings.Repeat("é", 31) + "x", strings.Repeat("x", 31) + "é"}),
+			TTMLCopyright: fw.Pick(r, []string{"", "© 2020 Quelqu'un d'autre, tous droits réservés dans le monde entier"}),
+			Framerate: fw.Pick(r, []int{0, 24, 60}), Language: fw.Pick(r, []string{"", "english"})}
+		g.OPT = s.Metadata.Title
 		g.CO = ""
 		if s.Metadata.Language != "" {
 			g.Lang = s.Metadata.Language
@@ -1084,8 +1087,17 @@ func c05Writer(c *fw.Ctx) fw.Outcome {
 		if h := stlProjectMeta(got.Metadata); h != dmeta {
 			return fw.Bad(key, fmt.Sprintf("%x", doc), "STL writer (%s): the library reader and the independent decoder disagree on the metadata of the written file: %s vs %s", kind, h, dmeta)
 		}
-		if got.Metadata == nil || got.Metadata.Title != model.G.OPT {
-			return fw.Bad(key, fmt.Sprintf("%x", doc), "STL writer (%s): title %q not found in the written file", kind, model.G.OPT)
+		// (a title of at most 32 ASCII bytes survives as it is, a longer one cut to the field; what the GSI code page
+		// makes of other scripts is not demanded - only that the blocks keep their sizes, checked above)
+		want, ascii := model.G.OPT, true
+		for i := 0; i < len(want); i++ {
+			ascii = ascii && want[i] < 0x80
+		}
+		if len(want) > 32 {
+			want = strings.TrimRight(want[:32], " ")
+		}
+		if ascii && (got.Metadata == nil || got.Metadata.Title != want) {
+			return fw.Bad(key, fmt.Sprintf("%x", doc), "STL writer (%s): title %q not found in the written file", kind, want)
 		}
 	}
 	// (c) reading then writing again changes no timecode
